@@ -115,6 +115,11 @@ def random_cfgs(tier, base_id, neg=False):
         i += 1
         cfgs.append({"id": i, "algo": "SequOOL", "kind": kind, "K": Kk, "D": D, "box": box, "n": n, "T": n, "prm": {}, "pattern": rnd.choice(["g01", "peak", "flat", "tied", "gneg", "const"]),
                      "shift": rnd.choice([0, 0, -1, -2]) if not neg else rnd.choice([-1, -2]), "seed": rnd.randrange(1 << 30), "queries": sorted(rnd.sample(range(2, n), 2)) if rep % 3 == 0 else []})
+    # layers much wider than their budget (8 children per cell, large n): selecting the cells to open from a long list
+    for (kind, Kk, D, n, T) in ([("dbin", 2, 3, 5000, 700)] if tier == "quick" else [("dbin", 2, 3, 5000, 1500), ("kary", 8, 1, 6000, 2600), ("kary", 6, 2, 5000, 1500)]):
+        i += 1
+        cfgs.append({"id": i, "algo": "SequOOL", "kind": kind, "K": Kk, "D": D, "box": [[0.0, 1.0]] * D, "n": n, "T": T, "prm": {}, "pattern": "g01", "shift": 0 if not neg else -1, "seed": rnd.randrange(1 << 30), "queries": [], "timeout": 300,
+                     "RU": 1 << 16})      # a fine reward grid: hardly any ties, so the order inside the selected block matters
     return cfgs
 
 
